@@ -66,6 +66,21 @@ genrule(
     cmd = "echo 'S //p:t3' >> %(log)s; cat $SRCS > $OUT",
 )
 '''
+OPT = '''genrule(
+    name = "t1",
+    srcs = ["f1.txt", "f2.txt"],
+    outs = ["t1.a"],
+    optional_outs = ["t1.opt"],
+    binary = True,
+    cmd = "echo 'S //p:t1' >> %(log)s; sleep 0.03; cat $PKG_DIR/f1.txt > t1.a; cat $PKG_DIR/f2.txt > t1.opt",
+)
+genrule(
+    name = "t2",
+    srcs = [":t1"],
+    outs = ["t2.out"],
+    cmd = "echo 'S //p:t2' >> %(log)s; cat $SRCS > $OUT",
+)
+'''
 SCENARIOS = [
     dict(name="two-outs-first-changes", build=TWO, before=dict(f1="a0", f2="b0"), after=dict(f1="a1", f2="b0"), req="t2", outs=["t1.a", "t1.b", "t2.out"]),
     dict(name="two-outs-both-change", build=TWO, before=dict(f1="a0", f2="b0"), after=dict(f1="a1", f2="b1"), req="t2", outs=["t1.a", "t1.b", "t2.out"]),
@@ -73,6 +88,8 @@ SCENARIOS = [
     dict(name="two-outs-from-empty", build=TWO, before=None, after=dict(f1="a1", f2="b1"), req="t2", outs=["t1.a", "t1.b", "t2.out"]),
     dict(name="dir-filegroup-textfile", build=DIRS, before=dict(f1="a0", f2="b0"), after=dict(f1="a1", f2="b0"), req="t3",
          outs=["t1.dir", "f1.txt", "t2.out", "tx.txt", "t3.out"]),
+    dict(name="optional-out-and-binary", build=OPT, before=dict(f1="a0", f2="b0"), after=dict(f1="a1", f2="b1"), req="t2",
+         outs=["../../bin/p/t1.a", "../../bin/p/t1.opt", "t2.out"]),
     dict(name="dir-filegroup-from-empty", build=DIRS, before=None, after=dict(f1="a1", f2="b1"), req="t3",
          outs=["t1.dir", "f1.txt", "t2.out", "tx.txt", "t3.out"]),
 ]
@@ -116,11 +133,11 @@ class Case:
 _clean = {}
 
 
-def clean_snapshot(ctx, sc):
-    key = sc["name"]
+def clean_snapshot(ctx, sc, reverted=False):
+    key = (sc["name"], reverted)
     if key not in _clean:
-        c = Case(ctx, "clean-" + sc["name"], sc, False)
-        c.files(sc["after"])
+        c = Case(ctx, "clean-%s-%s" % (sc["name"], reverted), sc, False)
+        c.files(sc["before"] if reverted else sc["after"])
         rc, out, _, _ = c.build()
         if rc != 0:
             raise vlib.Infra("clean build failed: " + out[-800:])
@@ -141,13 +158,15 @@ def points_of(ctx, sc, cache):
     return pts
 
 
-def crash_at(ctx, sc, cache, n, point, want):
-    c = Case(ctx, "crash-%s-%s-%d" % (sc["name"], cache, n), sc, cache)
+def crash_at(ctx, sc, cache, n, point, want, revert=False):
+    c = Case(ctx, "crash-%s-%s-%d-%s" % (sc["name"], cache, n, revert), sc, cache)
     try:
         c.prepare()
         rc, out, _, _ = c.build(env={"VERIF_CRASH_AT": str(n), "VERIF_CRASH_NAME": ""})
+        if revert:
+            c.files(sc["before"])      # the edit is undone after the crash: the next build sees the old tree again
         rc2, out2, started, _ = c.build(threads=None)
-        res = dict(scenario=sc["name"], cache=cache, crashAt=n, point=point, crashRc=rc, nextRc=rc2, reran=started)
+        res = dict(scenario=sc["name"], cache=cache, crashAt=n, point=point, crashRc=rc, nextRc=rc2, reran=started, revert=revert)
         if rc2 != 0:
             res["violation"] = "C32 build-after-crash-fails point=%s" % point
             res["output"] = out2[-1200:]
@@ -155,7 +174,7 @@ def crash_at(ctx, sc, cache, n, point, want):
         snap = c.snapshot()
         if snap != want:
             bad = sorted(o for o in snap if snap[o] != want[o])
-            res["violation"] = "C32 stale-or-partial-output-trusted-after-crash point=%s" % point
+            res["violation"] = "C32 stale-or-partial-output-trusted-after-crash point=%s%s" % (point, " edit-reverted" if revert else "")
             res["differs"] = {o: dict(got=snap[o], want=want[o]) for o in bad}
         return res
     finally:
@@ -199,31 +218,33 @@ def run(ctx):
     ctx.extra["model_crash_states"] = len(r.cases)
     byname = {s["name"]: s for s in SCENARIOS}
     if ctx.replay_only is not None:
-        todo = [(byname[d["scenario"]], d["cache"], d.get("crashAt"), d.get("point"), d.get("killAfterS")) for d in ctx.replay_only]
+        todo = [(byname[d["scenario"]], d["cache"], d.get("crashAt"), d.get("point"), d.get("killAfterS"), d.get("revert", False)) for d in ctx.replay_only]
     else:
         todo = []
-        scs = SCENARIOS if not ctx.quick else [SCENARIOS[0], SCENARIOS[3], SCENARIOS[4]]
+        scs = SCENARIOS if not ctx.quick else [SCENARIOS[0], SCENARIOS[2], SCENARIOS[3], SCENARIOS[4], SCENARIOS[5]]
         for sc in scs:
             for cache in ([False] if ctx.quick else [False, True]):
                 pts = points_of(ctx, sc, cache)
                 for n, pt in enumerate(pts, 1):
-                    todo.append((sc, cache, n, pt, None))
+                    todo.append((sc, cache, n, pt, None, False))
+                    if sc["before"] is not None and pt.startswith("build.") and (not ctx.quick or sc["name"].startswith("two-outs")):
+                        todo.append((sc, cache, n, pt, None, True))
                 rng = random.Random(ctx.seed * 31 + len(todo))
                 for k in range(6 if ctx.quick else 40):
-                    todo.append((sc, cache, None, None, rng.uniform(0.02, 0.45)))
-    for sc in {t[0]["name"] for t in todo}:
-        clean_snapshot(ctx, byname[sc])
+                    todo.append((sc, cache, None, None, rng.uniform(0.02, 0.45), False))
+    for name, rev in {(t[0]["name"], t[5]) for t in todo}:
+        clean_snapshot(ctx, byname[name], rev)
     with ThreadPoolExecutor(max_workers=12) as ex:
         futs = []
-        for i, (sc, cache, n, pt, delay) in enumerate(todo):
-            want = clean_snapshot(ctx, sc)
+        for i, (sc, cache, n, pt, delay, revert) in enumerate(todo):
+            want = clean_snapshot(ctx, sc, revert)
             if n is not None:
-                futs.append(ex.submit(crash_at, ctx, sc, cache, n, pt, want))
+                futs.append(ex.submit(crash_at, ctx, sc, cache, n, pt, want, revert))
             else:
                 futs.append(ex.submit(sigkill_at, ctx, sc, cache, i, delay, want))
         results = [f.result() for f in futs]
     for res in results:
-        key = json.dumps([res["scenario"], res["cache"], res.get("crashAt"), res.get("killAfterS")])
+        key = json.dumps([res["scenario"], res["cache"], res.get("crashAt"), res.get("killAfterS"), res.get("revert")])
         nt = (res.get("point") or "").startswith("build.") or res.get("killAfterS") is not None
         ctx.count(key, nontrivial=nt, sample={k: v for k, v in res.items() if k != "output"} if res.get("point") == "build.moveOutput.moved" else None)
         ctx.traces_validated += 1
@@ -235,6 +256,6 @@ def run(ctx):
         for step in o["steps"]:
             ctx.count("writefile:" + step["point"], nontrivial=True, sample=step if step["crashAt"] == 2 else None)
             ctx.traces_validated += 1
-            if step["dest"] not in ("OLD", "NEW-COMPLETE"):
+            if step["dest"] not in ("OLD", "NEW-COMPLETE", "ABSENT"):
                 ctx.violation("C32 fs.WriteFile leaves-partial-destination point=%s" % step["point"], step)
     ctx.exhaustive = ctx.replay_only is None
